@@ -4,7 +4,7 @@ import StepModel.Generated.InstMgrGen
 
 `InstMgr.lean` keeps the master array as a `List Node` plus a capacity; this file models the C++ one level lower —
 the heap block `_buf` of `_bufsize` slots (a slot is `none` = null pointer or `some p`), `_count`, and the three
-routines that touch it (`Check`, `Insert`, `Remove`) with `memset`/`memmove` spelled out — and proves that the list
+routines that touch it (`Check`, `Insert`, `Remove`, `ClearEntries`, `DeleteEntries`, `operator[]`) with `memset`/`memmove` spelled out — and proves that the list
 view used by `InstMgr.lean` is what the buffer holds, that no store or `memmove` leaves the block, and that the
 slots at and above `_count` are always null (which `GetMgrNode(index ≥ count)` relies on to return 0).
 
@@ -48,12 +48,24 @@ def remove (a : Arr) (index : Nat) : Option Arr :=
     -- memmove reads `_buf[index+1 .. index+1+(c-index))` and writes `_buf[index .. index+(c-index))`
     if index + 1 + (c - index) ≤ a.buf.length then
       let moved := a.buf.take index ++ (a.buf.drop (index + 1)).take (c - index) ++ a.buf.drop c
-      (store moved c none).map (fun b => { buf := b, count := c })
+      (if removeNullsVacated then store moved c none else some moved).map (fun b => { buf := b, count := c })
     else none
   else some a
 
-/-- `ClearEntries`: null the first `_count` slots -/
-def clear (a : Arr) : Arr := { buf := List.replicate a.count none ++ a.buf.drop a.count, count := 0 }
+/-- the common shape of `ClearEntries` / `DeleteEntries`: a loop over the first `_count` slots, then `_count = 0`;
+`nulls` says whether the loop body stores 0 in the slot (regenerated per routine) -/
+def dropAll (nulls : Bool) (a : Arr) : Arr :=
+  { buf := if nulls then List.replicate a.count none ++ a.buf.drop a.count else a.buf, count := 0 }
+
+/-- `MgrNodeArray::ClearEntries` -/
+def clear (a : Arr) : Arr := dropAll clearEntriesNullsSlots a
+
+/-- `MgrNodeArray::DeleteEntries` (the nodes are deleted; what is left in the slots is what matters here) -/
+def deleteEntries (a : Arr) : Arr := dropAll deleteEntriesNullsSlots a
+
+/-- `GenNodeArray::operator[]( index )` as `GetMgrNode`/`GetApplication_instance( index )` use it: `Check( index )`, then
+the slot's content; there is no test against `_count`, so "no instance at this index" must be a null slot -/
+def slotAt (a : Arr) (index : Nat) : Option Nat := ((check a index).buf[index]?).join
 
 /-- the list `InstMgr.lean` works with: the first `_count` slots -/
 def view (a : Arr) : List (Option Nat) := a.buf.take a.count
